@@ -15,6 +15,7 @@ import Driver.Proto
 import Driver.Sync
 import Driver.Contracts
 import Driver.RewardsNode
+import Driver.RewardsEpoch
 import Driver.Abi
 import Driver.Journal
 import Driver.JsonRpc
@@ -55,6 +56,7 @@ def registry : List Obj := [
   mkObj ({} : NsSt) nsStep,
   contractObj,
   rewardsNodeObj,
+  pureObj pureRewardsEpoch,
   pureObj pureAbi,
   pureObj pureArRecv,
   mkObj ({} : JrSt) jrStep,
